@@ -281,6 +281,12 @@ class GwTridonic(Gateway):
             elif data[1] == 0x02:
                 self.report(self.MODE_INFO, 0x12, [0x34, 0x56, 0x78, 0], 0)   # serial in data[1:5]
             return
+        if cmd == 0x40:
+            # POWER SUPPLY on / off: a request to the interface, no report; part of the wire like any frame (8 "bits": it
+            # can be taken neither for a 16-bit command nor for a device-type prefix)
+            self.cmdlog.append({"ix": len(self.cmdlog) + 1, "task": self.writes[-1]["task"], "frame": 0x4000 + data[1], "bits": 8,
+                                "twice": 0, "outcome": ["none", 0], "seq": 0, "write": len(self.writes)})
+            return
         if cmd != 0x12:
             return
         seq, ctrl, mode = data[1], data[2], data[3]
@@ -453,7 +459,14 @@ class GwLuba(SerialGateway):
             self.cmdlog.append({"ix": k + 1, "task": self.writes[-1]["task"], "frame": int.from_bytes(bytes(fb), "big"),
                                 "bits": nbits, "twice": 1 if twice else 0, "outcome": list(outcome), "seq": tx_id,
                                 "write": len(self.writes)})
-            self.log_dali_write(fb, nbits, outcome, self.sc.get("silent_confirm") == k + 1)
+            dead = self.sc.get("silent_from") and k + 1 >= self.sc["silent_from"]
+            self.log_dali_write(fb, nbits, outcome, self.sc.get("silent_confirm") == k + 1 or dead)
+            if dead:
+                # the gateway dies for good, possibly in the middle of a report
+                if k + 1 == self.sc["silent_from"] and self.sc.get("truncate_confirm"):
+                    self.emit((luba_frame(0x33, [tx_id, 0]) + luba_frame(0x31, [0, 0, 0, 0x00 | nbits, tx_id] + fb))
+                              [:self.sc["truncate_confirm"]])
+                return
             if self.sc.get("silent_confirm") == k + 1:
                 return
             self.emit(luba_frame(0x33, [tx_id, 0]))
@@ -496,7 +509,12 @@ class GwSci(SerialGateway):
         self.cmdlog.append({"ix": k + 1, "task": self.writes[-1]["task"], "frame": int.from_bytes(bytes(fb), "big"),
                             "bits": 8 * nbytes, "twice": 1 if twice else 0, "outcome": list(outcome), "seq": 0,
                             "write": len(self.writes)})
-        self.log_dali_write(fb, 8 * nbytes, outcome, self.sc.get("silent_confirm") == k + 1)
+        dead = self.sc.get("silent_from") and k + 1 >= self.sc["silent_from"]
+        self.log_dali_write(fb, 8 * nbytes, outcome, self.sc.get("silent_confirm") == k + 1 or dead)
+        if dead:
+            if k + 1 == self.sc["silent_from"] and self.sc.get("truncate_confirm"):
+                self.emit(sci_block(0x10, [0, 0, 0])[:min(4, self.sc["truncate_confirm"])])
+            return
         if self.sc.get("silent_confirm") == k + 1:
             return
         self.emit(sci_block(0x10, [0, 0, 0]), "conf")    # status OK: confirmation
